@@ -56,6 +56,7 @@ SPEC_CONSTS.update({
     "BPH_FIXED": dict(T.BPH_FIXED),
     "BPH_TORSION_KEYS": list(T.BPH_TORSION.keys()),
     "BASE_ATOMS_PINNED": dict(T.BASE_ATOMS),
+    "EPS": 1e-6,  # the property's undecided band around every threshold
 })
 
 UFUNS = {
@@ -146,8 +147,8 @@ class lw_reverse:
     params = {"self": "rec[LWMember]"}
     requires = ["(self.name, self.value) in LW_MEMBERS"]
     raises = []  # in particular no KeyError: the swapped name is again a member
-    ensures = ["result.name == lw_swap(self.name)",
-               "char(result.name, 0) == char(self.name, 0) and char(result.name, 1) == char(self.name, 2) and char(result.name, 2) == char(self.name, 1)"]
+    ensures = ["char(result.name, 1) == char(self.name, 2) and char(result.name, 2) == char(self.name, 1) and len(result.name) == 3",
+               "char(result.name, 0) == char(self.name, 0)"]
     ensures_labels = {0: "reverse-swaps-edge-letters", 1: "reverse-keeps-cis-trans"}
 
 
@@ -203,16 +204,24 @@ class find_atom_c:
 # ---------------------------------------------------------------------------------------------------------------------
 @spec
 def cis_torsion(a1, a2, a3, a4):
-    return -90 < degrees(torsion_of(a1, a2, a3, a4)) and degrees(torsion_of(a1, a2, a3, a4)) < 90
+    """the torsion a1-a2-a3-a4 is definitely inside (-90, 90) degrees (1e-6 away from the limits)"""
+    return -90 + EPS < degrees(torsion_of(a1, a2, a3, a4)) and degrees(torsion_of(a1, a2, a3, a4)) < 90 - EPS
+
+
+@spec
+def trans_torsion(a1, a2, a3, a4):
+    """the torsion is definitely outside [-90, 90] degrees"""
+    return degrees(torsion_of(a1, a2, a3, a4)) < -90 - EPS or degrees(torsion_of(a1, a2, a3, a4)) > 90 + EPS
 
 
 def _bph_torsion_clauses():
     out = []
     for (b, d), ((x, y), cis, trans) in T.BPH_TORSION.items():
         ix, iy = f"first_idx(donor_residue, {x!r})", f"first_idx(donor_residue, {y!r})"
+        four = f"donor_residue.atoms[{ix}], donor_residue.atoms[{iy}], donor, acceptor"
         out.append(f"implies(donor_residue.one_letter_name == {b!r} and donor.name == {d!r}, "
                    f"ite({ix} >= 0 and {iy} >= 0, "
-                   f"result == ite(cis_torsion(donor_residue.atoms[{ix}], donor_residue.atoms[{iy}], donor, acceptor), {cis}, {trans}), "
+                   f"(result == {cis} or result == {trans}) and implies(cis_torsion({four}), result == {cis}) and implies(trans_torsion({four}), result == {trans}), "
                    f"result is None))")
     return out
 
@@ -269,6 +278,9 @@ SPEC_CONSTS.update({"NBASE": NBASE, "EPS": 1e-6, "D_MAX": T.STACK_MAX_DIST, "NN_
 UFUNS.update({
     # abbreviations with explicit definitions (LEMMAS of kind "definition" below); all are functions of frozen residues
     "cnt_base": (["int"], "int"),                   # number of base heavy atoms (pinned BASE_ATOMS) present in the residue
+    # prefix count / coordinate sums over the first k pinned base atom names of the residue (primitive recursion on k:
+    # base_prefix_zero, base_prefix_step)
+    "bcnt": (["int", "int"], "int"), "bsx": (["int", "int"], "real"), "bsy": (["int", "int"], "real"), "bsz": (["int", "int"], "real"),
     "cenx": (["int"], "real"), "ceny": (["int"], "real"), "cenz": (["int"], "real"),  # their centroid
     # angle between two 3-D vectors (radians), as a function of their six components; defined by vangle_definition
     # (arccos of the normalised dot product), which is what angle_between_vectors is proved to return
@@ -388,32 +400,6 @@ def res_key_lt(a, b):
 @spec
 def base_names(r):
     return BASE_ATOMS_PINNED.get(r.one_letter_name, [])
-
-
-@spec
-def has_base_atom(r, m):
-    """the m-th base heavy atom name of r's base is present in r"""
-    return m < len(base_names(r)) and first_idx(r, base_names(r)[m]) >= 0
-
-
-@spec
-def cntp(r, j):
-    return sum([ite(m < j and has_base_atom(r, m), 1, 0) for m in range(NBASE)])
-
-
-@spec
-def sumxp(r, j):
-    return sum([ite(m < j and has_base_atom(r, m), r.atoms[first_idx(r, base_names(r)[m])].x, 0) for m in range(NBASE)])
-
-
-@spec
-def sumyp(r, j):
-    return sum([ite(m < j and has_base_atom(r, m), r.atoms[first_idx(r, base_names(r)[m])].y, 0) for m in range(NBASE)])
-
-
-@spec
-def sumzp(r, j):
-    return sum([ite(m < j and has_base_atom(r, m), r.atoms[first_idx(r, base_names(r)[m])].z, 0) for m in range(NBASE)])
 
 
 @spec
@@ -622,8 +608,8 @@ class find_stackings_c:
             "forall(lambda k, w: implies(0 <= k and k < w and w < len(coordinates), SRC0[k] < SRC0[w]), pats=[['SRC0[k]', 'SRC0[w]']])",
         ]},
         1: {"index": "kk", "inv": [
-            "len(xs) == cntp(residue, kk) and len(ys) == cntp(residue, kk) and len(zs) == cntp(residue, kk)",
-            "sum(xs) == sumxp(residue, kk) and sum(ys) == sumyp(residue, kk) and sum(zs) == sumzp(residue, kk)",
+            "len(xs) == bcnt(residue, kk) and len(ys) == bcnt(residue, kk) and len(zs) == bcnt(residue, kk)",
+            "sum(xs) == bsx(residue, kk) and sum(ys) == bsy(residue, kk) and sum(zs) == bsz(residue, kk)",
         ]},
         2: {"index": "t", "seq": "EN", "inv": [
             "0 <= len(pairs) and len(SRC2) == len(pairs) and len(POS2) == t",
@@ -641,18 +627,22 @@ class find_stackings_c:
     ghost = [
         {"when": "after", "at": "coordinates = []", "label": "ghost-init0", "do": ["let SRC0 = empty('list[int]')", "let POS0 = empty('list[int]')"]},
         {"when": "before", "at": "continue", "loop": 0, "label": "skip0", "do": ["let POS0 = snoc(POS0, 0 - 1)"]},
-        {"when": "after", "at": "xs, ys, zs =", "label": "sum-empty", "do": ["use sum_empty(xs)", "use sum_empty(ys)", "use sum_empty(zs)"]},
+        {"when": "after", "at": "base_atoms =", "label": "base-atom-table-is-the-pinned-table",
+         "do": ["assert len(base_atoms) == len(base_names(residue)) and forall(lambda q: implies(0 <= q and q < len(base_atoms), base_atoms[q] == base_names(residue)[q]))"]},
+        {"when": "after", "at": "xs, ys, zs =", "label": "sum-empty",
+         "do": ["use sum_empty(xs)", "use sum_empty(ys)", "use sum_empty(zs)", "use base_prefix_zero(residue)"]},
+        {"when": "after", "at": "atom = residue.find_atom(", "label": "prefix-step", "do": ["use base_prefix_step(residue, kk)"]},
         {"when": "before", "at": "xs.append(", "label": "sum-pre", "do": ["let xs0 = xs", "let ys0 = ys", "let zs0 = zs"]},
         {"when": "after", "at": "zs.append(", "label": "sum-append",
          "do": ["use sum_append(xs0, xs, atom.x)", "use sum_append(ys0, ys, atom.y)", "use sum_append(zs0, zs, atom.z)"]},
         {"when": "before", "at": "if len(xs) > 0", "label": "centroid-def",
          "do": ["use centroid_definition(residue)",
                 "assert len(xs) == cnt_base(residue) and len(ys) == cnt_base(residue) and len(zs) == cnt_base(residue)",
-                "assert sum(xs) == sumxp(residue, NBASE) and sum(ys) == sumyp(residue, NBASE) and sum(zs) == sumzp(residue, NBASE)"]},
+                "assert sum(xs) == bsx(residue, len(base_names(residue))) and sum(ys) == bsy(residue, len(base_names(residue))) and sum(zs) == bsz(residue, len(base_names(residue)))"]},
         {"when": "after", "at": "geometric_center =", "label": "centroid",
-         "do": ["use mean_unique(cenx(residue), len(xs), cnt_base(residue), sum(xs), sumxp(residue, NBASE), 1 / len(xs))",
-                "use mean_unique(ceny(residue), len(ys), cnt_base(residue), sum(ys), sumyp(residue, NBASE), 1 / len(ys))",
-                "use mean_unique(cenz(residue), len(zs), cnt_base(residue), sum(zs), sumzp(residue, NBASE), 1 / len(zs))",
+         "do": ["use mean_unique(cenx(residue), len(xs), cnt_base(residue), sum(xs), bsx(residue, len(base_names(residue))), 1 / len(xs))",
+                "use mean_unique(ceny(residue), len(ys), cnt_base(residue), sum(ys), bsy(residue, len(base_names(residue))), 1 / len(ys))",
+                "use mean_unique(cenz(residue), len(zs), cnt_base(residue), sum(zs), bsz(residue, len(base_names(residue))), 1 / len(zs))",
                 "assert geometric_center[0] == cenx(residue) and geometric_center[1] == ceny(residue) and geometric_center[2] == cenz(residue)"]},
         {"when": "after", "at": "coordinates.append(", "label": "src0", "do": ["let SRC0 = snoc(SRC0, p)"]},
         {"when": "after", "at": "if len(xs) > 0", "label": "pos0", "do": ["let POS0 = snoc(POS0, ite(len(xs) > 0, len(coordinates) - 1, 0 - 1))"]},
@@ -691,12 +681,12 @@ class find_stackings_c:
         {"when": "after", "at": "pairs = []", "label": "ghost-init2", "do": ["let SRC2 = empty('list[int]')", "let POS2 = empty('list[int]')"]},
         {"when": "after", "at": "residue_j =", "label": "pair-of-step",
          "do": [f"assert 0 <= i and i < j and j < len(coordinates) and residue_i == {_RM('i')} and residue_j == {_RM('j')}"]},
-        {"when": "before", "at": "continue", "loop": 2, "label": "rejected",
+        {"when": "before", "at": "continue", "loop": 2, "label": "a-skipped-pair-does-not-satisfy-the-definition",
          "do": [f"assert not stk({_RM('i')}, {_RM('j')}, 0 - EPS)", "let POS2 = snoc(POS2, 0 - 1)"]},
         {"when": "after", "at": "vector =", "label": "vector-nonzero", "do": ["use sumsq_pos(vector[0], vector[1], vector[2])"]},
-        {"when": "after", "at": "pairs.append(", "label": "accepted",
-         "do": [f"assert stk({_RM('i')}, {_RM('j')}, EPS)",
-                f"assert pair_loose(pairs[len(pairs) - 1], {_RM('i')}, {_RM('j')}) and pair_tight(pairs[len(pairs) - 1], {_RM('i')}, {_RM('j')})",
+        {"when": "after", "at": "pairs.append(", "label": "an-appended-pair-satisfies-the-definition", "do": [f"assert stk({_RM('i')}, {_RM('j')}, EPS)"]},
+        {"when": "after", "at": "pairs.append(", "label": "an-appended-triple-lists-the-lower-residue-first-with-the-defined-topology",
+         "do": [f"assert pair_loose(pairs[len(pairs) - 1], {_RM('i')}, {_RM('j')}) and pair_tight(pairs[len(pairs) - 1], {_RM('i')}, {_RM('j')})",
                 "let SRC2 = snoc(SRC2, t)", "let POS2 = snoc(POS2, len(pairs) - 1)"]},
     ]
 
@@ -710,9 +700,18 @@ LEMMAS.update({
                    "requires": ["len(new_) == len(old_) + 1", "forall(lambda q: implies(0 <= q and q < len(old_), new_[q] == old_[q]))", "new_[len(old_)] == v"],
                    "ensures": ["sum(new_) == sum(old_) + v"]},
     # --- explicit definitions of the abbreviations (UFUNS) ---
+    "base_prefix_zero": {"kind": "definition", "params": ["r"],
+                         "ensures": ["bcnt(r, 0) == 0 and bsx(r, 0) == 0 and bsy(r, 0) == 0 and bsz(r, 0) == 0"]},
+    "base_prefix_step": {"kind": "definition", "params": ["r", "k"], "requires": ["0 <= k and k < len(base_names(r))"],
+                         "ensures": ["ite(first_idx(r, base_names(r)[k]) >= 0, "
+                                     "bcnt(r, k + 1) == bcnt(r, k) + 1 and bsx(r, k + 1) == bsx(r, k) + r.atoms[first_idx(r, base_names(r)[k])].x "
+                                     "and bsy(r, k + 1) == bsy(r, k) + r.atoms[first_idx(r, base_names(r)[k])].y "
+                                     "and bsz(r, k + 1) == bsz(r, k) + r.atoms[first_idx(r, base_names(r)[k])].z, "
+                                     "bcnt(r, k + 1) == bcnt(r, k) and bsx(r, k + 1) == bsx(r, k) and bsy(r, k + 1) == bsy(r, k) and bsz(r, k + 1) == bsz(r, k))"]},
     "centroid_definition": {"kind": "definition", "params": ["r"],
-                            "ensures": ["cnt_base(r) == cntp(r, NBASE)",
-                                        "implies(cnt_base(r) > 0, cenx(r) * cnt_base(r) == sumxp(r, NBASE) and ceny(r) * cnt_base(r) == sumyp(r, NBASE) and cenz(r) * cnt_base(r) == sumzp(r, NBASE))"]},
+                            "ensures": ["cnt_base(r) == bcnt(r, len(base_names(r)))",
+                                        "implies(cnt_base(r) > 0, cenx(r) * cnt_base(r) == bsx(r, len(base_names(r))) and ceny(r) * cnt_base(r) == bsy(r, len(base_names(r))) "
+                                        "and cenz(r) * cnt_base(r) == bsz(r, len(base_names(r))))"]},
     "residue_order_definition": {"kind": "definition", "params": ["a", "b"], "ensures": ["rlt(a, b) == res_key_lt(a, b)"]},
     "vangle_definition": {"kind": "definition", "params": ["u", "v"],
                           "ensures": ["vangle(u, v) == acos(dot(u, v) / norm(u) / norm(v))"]},
